@@ -750,6 +750,17 @@ def b_sorted(it, args, kwargs, node):
     if 'key' in kwargs:
         order = None
     elem, ln = it.iter_element(v, node)
+    if isinstance(v, ListV) and v.items is not None and order:
+        # tuples whose first components are distinct constants (dictionary items): ordered by that component alone
+        tk = [it.py_key(x.items[0]) if isinstance(it.resolve(x), TupleV) and it.resolve(x).items else None for x in v.items]
+        if v.items and None not in tk and len(set(map(repr, tk))) == len(tk):
+            try:
+                idx = sorted(range(len(tk)), key=lambda i: tk[i], reverse=(order == 'desc'))
+                r = ListV(items=[v.items[i] for i in idx], order=order)
+                r.exact_ok = bool(getattr(v, 'exact_ok', False))
+                return r
+            except TypeError:
+                pass
     if isinstance(v, ListV) and v.items is not None:
         pk = [it.py_key(x) for x in v.items]
         if None not in pk and order:
